@@ -76,7 +76,7 @@ pub fn is_positional_op(k: &OpKind) -> bool {
 /// ConcatSource with several children) above a CachedSource?
 pub fn composite_over_cache(o: &TreeSpec) -> bool {
   o.contains(&|n| match n {
-    TreeSpec::Replace { inner, calls } if !calls.is_empty() => {
+    TreeSpec::Replace { inner, calls, .. } if !calls.is_empty() => {
       inner.contains(&|m| matches!(m, TreeSpec::Cached { .. }))
     }
     TreeSpec::Concat { children, .. } if children.len() >= 2 => {
@@ -189,9 +189,10 @@ pub fn uncache(t: &TreeSpec) -> TreeSpec {
       children: children.iter().map(uncache).collect(),
       how: how.clone(),
     },
-    TreeSpec::Replace { inner, calls } => TreeSpec::Replace {
+    TreeSpec::Replace { inner, calls, observe_at } => TreeSpec::Replace {
       inner: Box::new(uncache(inner)),
       calls: calls.clone(),
+      observe_at: *observe_at,
     },
     TreeSpec::User { inner, id } => TreeSpec::User {
       inner: Box::new(uncache(inner)),
@@ -929,14 +930,14 @@ pub fn edit_tree(rng: &mut Rng, t: &TreeSpec) -> TreeSpec {
         TreeSpec::Concat { children: k, how: how.clone() }
       }
     }
-    TreeSpec::Replace { inner, calls } => {
+    TreeSpec::Replace { inner, calls, .. } => {
       if calls.is_empty() || rng.chance(300) {
         if rng.chance(500) {
-          TreeSpec::Replace { inner: Box::new(edit_tree(rng, inner)), calls: calls.clone() }
+          TreeSpec::Replace { inner: Box::new(edit_tree(rng, inner)), calls: calls.clone(), observe_at: None }
         } else {
           let mut k = calls.clone();
           k.push(ReplCall { start: 0, end: 0, content: "z".into(), name: None, enforce: None, via_insert: false });
-          TreeSpec::Replace { inner: inner.clone(), calls: k }
+          TreeSpec::Replace { inner: inner.clone(), calls: k, observe_at: None }
         }
       } else {
         let i = rng.usize_below(calls.len());
@@ -966,7 +967,7 @@ pub fn edit_tree(rng: &mut Rng, t: &TreeSpec) -> TreeSpec {
             k.remove(i);
           }
         }
-        TreeSpec::Replace { inner: inner.clone(), calls: k }
+        TreeSpec::Replace { inner: inner.clone(), calls: k, observe_at: None }
       }
     }
     TreeSpec::Cached { inner, cache_id } => {
@@ -1034,7 +1035,7 @@ pub fn gen_c14(rng: &mut Rng) -> Scenario {
     for _ in 0..n_ops {
       let obj = *rng.pick(&[0usize, 0, 0, 1, 1, 2]);
       let edit_clone = match (&objects[obj], rng.chance(120)) {
-        (TreeSpec::Replace { inner, calls }, true) => {
+        (TreeSpec::Replace { inner, calls, .. }, true) => {
           let text = content(inner).0;
           let call = gen::gen_call(rng, &text, ascii, calls);
           Some(OpKind::CloneEditObserve {
@@ -1122,6 +1123,7 @@ pub fn gen_c10(rng: &mut Rng) -> Scenario {
         TreeSpec::Replace {
           inner: Box::new(cached.clone()),
           calls: gen::gen_calls(rng, &text, 2, true),
+          observe_at: None,
         }
       }
     };
